@@ -47,7 +47,7 @@ func init() {
 			"Class-precedence clause (J1): CompareJSON dispatches on the left operand's dynamic type to one kernel per JSON value class and each kernel switches on the right operand's dynamic type; the constant " +
 			"results of the cross-class arms form a precedence table, read from the type switches, which must be antisymmetric (kernel(X) on class Y and kernel(Y) on class X return opposite non-zero constants) and acyclic.",
 		NotCovered: "transitivity/antisymmetry over non-NULL values beyond the exact-conversion clause (that the guards of a kernel return the right sign, that a strict comparison of rounded values is used only in its sound direction), coherence of Compare with Convert (Type.Compare converts both operands with the type's own Convert and drops the range flag), collation order (C29), float NaN ordering",
-		Technique:  "SSA dominance (sibling nil-guard engine) + abstract interpretation of the NULL helper over a 4-point domain + interval engine over dominating branch conditions for the conversion clause",
+		Technique:  "SSA dominance (sibling nil-guard engine) + abstract interpretation of the NULL helper over a 4-point domain + interval engine over dominating branch conditions for the conversion clause; class-precedence table read from the type switches of the dispatched JSON comparison (go/types)",
 		Run: func(c *Ctx) {
 			rels := []string{}
 			for _, pk := range c.P.Module {
